@@ -842,7 +842,8 @@ def apiTell (m r : ModId) (payload : Nat) (af : Bool) : Prog Int :=
         modify fun s => sendMsg s m (some r) none payload af
         pure 0
 
-def isSystemTopic (t : String) : Bool := t.startsWith "LIBMODULE_"
+/-- `strncmp(topic, "LIBMODULE_", 10) == 0` -/
+def isSystemTopic (t : String) : Bool := t.toList.take 10 == "LIBMODULE_".toList
 
 def apiPublish (m : ModId) (topic : Option String) (payload : Nat) (af : Bool) : Prog Int :=
   guarded m (·.denyPub) none false do
